@@ -272,4 +272,37 @@ theorem mergeAdditions_count (add : Sched) : ∀ ls : Labels, ∀ n x,
     rw [this, extendSort_count, count_cons]
     omega
 
+/-! ### All the stages together -/
+
+theorem labels_count_append (a b : Labels) (n : Str) (x : Nat × Nat) :
+    Labels.count (a ++ b) n x = Labels.count a n x + Labels.count b n x := by
+  simp [Labels.count, List.sum_append]
+
+/-- Occurrences of `(n, x)` among what SQLite derived at all the stages. -/
+def derivedCount (derived : List (List Occ)) (n : Str) (x : Nat × Nat) : Nat :=
+  (derived.map fun d => occCount d n x).sum
+
+/-- The SQL stages, folded: what is kept overall is what was derived overall minus the deletions still
+scheduled (as far as there are occurrences), whatever the stage at which each occurrence shows up. -/
+theorem stages_fold_count (derived : List (List Occ)) : ∀ (L : Labels) (D : Sched), (keys D).Nodup →
+    let R := derived.foldl (fun acc d => ((acc.1 ++ (sqlStage acc.2 d).1, (sqlStage acc.2 d).2) : Labels × Sched)) (L, D)
+    (keys R.2).Nodup ∧ ∀ n x,
+      Labels.count R.1 n x = Labels.count L n x + (derivedCount derived n x - Sched.count D n x) ∧
+      Sched.count R.2 n x = Sched.count D n x - derivedCount derived n x := by
+  induction derived with
+  | nil => intro L D hnd; simp [derivedCount]; exact hnd
+  | cons d rest ih =>
+    intro L D hnd
+    obtain ⟨hk, hc⟩ := stage_count d D hnd
+    have hnd' : (keys (sqlStage D d).2).Nodup := by simp only [sqlStage]; rw [hk]; exact hnd
+    obtain ⟨ihk, ihc⟩ := ih (L ++ (sqlStage D d).1) (sqlStage D d).2 hnd'
+    simp only [List.foldl_cons]
+    refine ⟨ihk, fun n x => ?_⟩
+    obtain ⟨a, b⟩ := ihc n x
+    obtain ⟨c1, c2⟩ := hc n x
+    simp only [sqlStage] at a b ⊢
+    rw [a, b, labels_count_append, group_count, c1, c2]
+    simp only [derivedCount, List.map_cons, List.sum_cons]
+    omega
+
 end Paroxy.Glue
